@@ -1337,6 +1337,8 @@ def rshift(I, a, b):
     if isinstance(a2, SV) and isinstance(a2.ty, TObj):
         m = I.getattr(a2, "__rshift__")
         return I.call(m, [b], {})
+    if isinstance(a2, SV) and isinstance(a2.ty, TAbs) and "__rshift__" in a2.ty.methods:
+        return I.call(AbstractMethod(a2, "__rshift__", a2.ty.methods["__rshift__"]), [b], {})
     h = I.E.externals.get(">>")
     if h is not None:
         return h(I, a, b)
